@@ -252,8 +252,11 @@ def spellable(v):
 def big_value(r):
     """collections beyond the size thresholds of any fast path, of every element kind that has its own ordering"""
     n = r.choice([17, 33, 65, 128, 129, 130, 200, 300])
-    ek = r.choice(["int", "str", "dec", "mixnum", "list", "set", "setstr", "bool-int", "map"])
-    if ek == "int":
+    ek = r.choice(["int", "str", "dec", "mixnum", "list", "set", "setstr", "bool-int", "map", "bigint"])
+    if ek == "bigint":
+        base = r.choice([2**53, 2**63, 10**30, -2**53 - 400])
+        elems = [("int", base + x) for x in r.sample(range(0, 400), n)]
+    elif ek == "int":
         elems = [("int", x) for x in r.sample(range(-500, 100000), n)]
     elif ek == "str":
         elems = [("str", "".join(r.choice("ab'\\ z9") for _ in range(r.randint(0, 6))) + str(i)) for i in range(n)]
@@ -290,6 +293,18 @@ def run_roundtrip(spec, ctx):
              ("str", "\\n"), ("str", "\\'"), ("str", "x\\"), ("int", -5), ("list", (("int", -1), ("dec", -1.5)))]
     for av in fixed:
         check_value(ctx, it, av, r)
+    # keys and elements that only exact comparison tells apart (neighbours beyond 2^53, 2^63, 10^30; an int next to the
+    # decimal it rounds to), in several construction orders each
+    big = [2**53, 2**53 + 1, 2**53 + 2, 2**63, 2**63 + 1, 10**30, 10**30 + 1, -2**53 - 1, -2**53]
+    near = [("set", tuple(("int", x) for x in big)), ("map", tuple((("int", x), ("int", i)) for i, x in enumerate(big))),
+            ("map", ((("int", 2**53 + 1), ("int", 1)), (("int", 2**53), ("int", 2)), (("int", 2**53 + 2), ("int", 3)))),
+            ("set", (("int", 2**53 + 1), ("dec", float(2**53)), ("int", 2**53 + 2))), ("set", (("dec", 1e30), ("int", 10**30 + 1), ("int", 10**30 - 1))),
+            ("map", ((("list", (("int", 2**53 + 1),)), ("int", 1)), (("list", (("int", 2**53),)), ("int", 2)))),
+            ("set", (("set", (("int", 2**63 + 1),)), ("set", (("int", 2**63),)), ("set", (("int", 2**63 + 2),))))]
+    for av in near:
+        for _ in range(8):
+            check_value(ctx, it, av, r)
+            ctx.count("near_neighbour_constructions")
     for i in range(spec["n"]):
         av = gv.gen_value(r, depth=r.choice([0, 0, 1, 2, 3]), kinds=DATA_KINDS)
         if i % 60 == 7:
